@@ -15,16 +15,15 @@ def gen(rng, n):
         d["READ_MAX"] = 100000
         d["NBIDI"] = rng.below(2)
         d["NUNI"] = 1
-        d["CLOSER"] = rng.choice([0, 3])
+        # short lives only: the busy driver spends 20 000 steps on every deadline, and its step budget is finite
+        d["CLOSER"] = 0
         d["IDLE_MS"] = 2000
-        d["MAX_TIME"] = 10_000_000
+        d["MAX_TIME"] = 3_000_000
         if rng.chance(1, 3):
             d["CONTROLLER"] = rng.choice([1, 2])
         if rng.chance(1, 3):
             d["PACING_BPS"] = rng.choice([200000, 1000000])
             d["STREAM_BYTES"] = min(d["STREAM_BYTES"], d["PACING_BPS"] // 4)
-        if rng.chance(1, 4):
-            d["KEEPALIVE_MS"] = 300
         d["TWIN"] = 5
         cases.append(S.case_of(d))
     return cases
